@@ -175,7 +175,7 @@ def roster(consts, ids, extra=None):
     return out
 
 
-def build_wows(v, rng, join=True, battle_end=True, map_name='spaces/16_OC_bees_to_honey', n_players=3, roster_extra=None, recreate=False, dumps=None, extreme=False, reuse=False, twins=False):
+def build_wows(v, rng, join=True, battle_end=True, map_name='spaces/16_OC_bees_to_honey', n_players=3, roster_extra=None, recreate=False, dumps=None, extreme=False, reuse=False, twins=False, special_floats=False):
     """-> (Battle, version string for the open block).  v: a directory name under clients/wows/versions"""
     ver = v.split('_'); new = tuple(map(int, ver[:3])) >= (12, 6, 0)
     d = os.path.join(common.REPO, 'replay_unpack', 'clients', 'wows', 'versions', v)
@@ -254,8 +254,11 @@ def build_wows(v, rng, join=True, battle_end=True, map_name='spaces/16_OC_bees_t
         import copy as copy_
         twin = copy_.deepcopy(b.expect['vehicles'][V1])
         b.create(V2, 'Vehicle', [('crewModifiersCompactParams', lambda t, val: copy_.deepcopy(twin))]); b.expect['vehicles'][V2] = copy_.deepcopy(twin)
-        pt = field_type(dict(b.md.ent['Vehicle']['client'])['crewModifiersCompactParams'], ['paramsId'])
-        if pt is not None and strip_user(pt)[0] in 'ui' and b.nested_set_field(V1, 'Vehicle', 'crewModifiersCompactParams', 'paramsId', 77):
+        cmt = dict(b.md.ent['Vehicle']['client'])['crewModifiersCompactParams']
+        lt = field_type(cmt, ['learnedSkills']); pt = field_type(cmt, ['paramsId'])
+        if lt is not None and strip_user(lt)[0] == 'u':          # the versions that report the set bits of this mask as the ship's skills
+            if b.nested_set_field(V1, 'Vehicle', 'crewModifiersCompactParams', 'learnedSkills', 5): b.expect['vehicles'][V1]['learnedSkills'] = 5
+        elif pt is not None and strip_user(pt)[0] in 'ui' and b.nested_set_field(V1, 'Vehicle', 'crewModifiersCompactParams', 'paramsId', 77):
             b.expect['vehicles'][V1]['paramsId'] = 77
     if recreate:
         # ids that are created, updated and created AGAIN (with another value, with a partial property set, as another type): afterwards only
@@ -308,9 +311,12 @@ def build_wows(v, rng, join=True, battle_end=True, map_name='spaces/16_OC_bees_t
                 b.amount_extra = 2 * (len(amount_fields) - 1)
                 return [mk(a, m) for a, m in batch]
             return f
-        for victim, batch in ((V1, [(V2, 100), (V2, 50)]), (V1, [(V2, 7)]), (V2, [(V1, 11)])):
+        batches = ((V1, [(V2, 100), (V2, 50)]), (V1, [(V2, 7)]), (V2, [(V1, 11)]))
+        if special_floats: batches += ((V1, [(V2, ('f', 0xff800000))]), (V2, [(V1, ('f', 0x7f800000))]))      # -inf and +inf are legal FLOAT32 amounts
+        for victim, batch in batches:
             b.call(victim, 'Vehicle', 'receiveDamagesOnShip', [dmg(batch)])
             for att, amt in batch:
+                if not isinstance(amt, (int, float)): continue
                 b.expect['damage'].setdefault(victim, {}).setdefault(att, 0); b.expect['damage'][victim][att] += amt + b.amount_extra
     if 'onAchievementEarned' in am:
         for _ in range(2):
